@@ -1,6 +1,7 @@
 package main
 
 import (
+	"encoding/binary"
 	"fmt"
 	"math/rand"
 	"sort"
@@ -27,7 +28,7 @@ func regionIDs(regs []txfile.VerifRegion) []uint64 {
 	return out
 }
 
-func pagesK1(rep *Report, m *model.Client, r *rand.Rand, n int) {
+func pagesK1(rep *Report, m *model.Client, r *rand.Rand, n int, malformed bool) {
 	for i := 0; i < n; i++ {
 		ps := uint(1024)
 		// free lists: random region lists incl. big regions, spread over 1..4 pages
@@ -110,6 +111,39 @@ func pagesK1(rep *Report, m *model.Client, r *rand.Rand, n int) {
 				Detail: fmt.Sprintf("free lists read back differ: meta %s vs %s", trunc(flat(rml), 80), trunc(flat(ml), 80)), Replay: map[string]interface{}{"meta": ml, "data": dl}})
 		}
 
+		// malformed stream: one page of the chain damaged (entry count beyond the page, garbage, truncated
+		// overflow entry at the end of the page); both sides must answer the same, the implementation never panics
+		if malformed && len(ids) > 0 {
+			k := r.Intn(len(ids))
+			dmg := append([]byte(nil), pages[k]...)
+			kind := damagePage(r, dmg)
+			pm2 := map[uint64][]byte{}
+			req2 := []string{}
+			for j := range ids {
+				pg := pages[j]
+				if j == k {
+					pg = dmg
+				}
+				pm2[ids[j]] = pg
+				req2 = append(req2, fmt.Sprint(ids[j]), model.Hex(pg))
+			}
+			rids, rml, rdl, out := txfile.VerifReadFreeList(pm2, root)
+			impl = out
+			if out == "ok" {
+				impl = fmt.Sprintf("ok %s %s %s", model.List(rids), flat(rml), flat(rdl))
+			}
+			mod = m.Ask(fmt.Sprintf("readfl %d %s", root, strings.Join(req2, " ")))
+			rep.count("pages:readfl-malformed/"+kind+"/"+firstWord(impl), 1)
+			if out == "panic" {
+				rep.violate(Violation{Kind: "oracle", Sig: "pages/readFreeList-panics", Detail: "readFreeList panics on a damaged page (" + kind + ")",
+					Replay: map[string]interface{}{"meta": ml, "data": dl, "damage": kind, "page": model.Hex(dmg)}})
+			} else if impl != mod {
+				rep.violate(Violation{Kind: "correspondence", Sig: "pages/readFreeList-malformed",
+					Detail: fmt.Sprintf("readFreeList on a damaged page (%s): impl=%s model=%s", kind, trunc(impl, 120), trunc(mod, 120)),
+					Replay: map[string]interface{}{"meta": ml, "data": dl, "damage": kind, "page": model.Hex(dmg)}})
+			}
+		}
+
 		// overwrite mapping
 		nm := r.Intn(200)
 		var keys, vals []uint64
@@ -179,7 +213,74 @@ func pagesK1(rep *Report, m *model.Client, r *rand.Rand, n int) {
 				rep.violate(Violation{Kind: "correspondence", Sig: "pages/readWAL",
 					Detail: fmt.Sprintf("readWAL: impl=%s model=%s", trunc(impl, 120), trunc(mod, 120)), Replay: map[string]interface{}{"keys": keys}})
 			}
+			// malformed stream
+			if !malformed {
+				continue
+			}
+			k := r.Intn(len(wids))
+			dmg := append([]byte(nil), wpages[k]...)
+			kind := damagePage(r, dmg)
+			pm[wids[k]] = dmg
+			req = req[:0]
+			for j := range wids {
+				req = append(req, fmt.Sprint(wids[j]), model.Hex(pm[wids[j]]))
+			}
+			rids, mp, out = txfile.VerifReadWAL(pm, wids[0])
+			impl = out
+			if out == "ok" {
+				ks := make([]uint64, 0, len(mp))
+				for k := range mp {
+					ks = append(ks, k)
+				}
+				sort.Slice(ks, func(a, b int) bool { return ks[a] < ks[b] })
+				fl := make([]uint64, 0, 2*len(ks))
+				for _, k := range ks {
+					fl = append(fl, k, mp[k])
+				}
+				impl = fmt.Sprintf("ok %s %s", model.List(rids), model.List(fl))
+			}
+			mod = m.Ask(fmt.Sprintf("readwal %d %s", wids[0], strings.Join(req, " ")))
+			rep.count("pages:readwal-malformed/"+kind+"/"+firstWord(impl), 1)
+			if out == "panic" {
+				rep.violate(Violation{Kind: "oracle", Sig: "pages/readWAL-panics", Detail: "readWAL panics on a damaged page (" + kind + ")",
+					Replay: map[string]interface{}{"keys": keys, "damage": kind, "page": model.Hex(dmg)}})
+			} else if impl != mod {
+				rep.violate(Violation{Kind: "correspondence", Sig: "pages/readWAL-malformed",
+					Detail: fmt.Sprintf("readWAL on a damaged page (%s): impl=%s model=%s", kind, trunc(impl, 120), trunc(mod, 120)),
+					Replay: map[string]interface{}{"keys": keys, "damage": kind, "page": model.Hex(dmg)}})
+			}
 		}
+	}
+}
+
+// damagePage damages a list page (header: next u64, count u32) in place and names the damage.
+func damagePage(r *rand.Rand, pg []byte) string {
+	switch r.Intn(5) {
+	case 0:
+		binary.LittleEndian.PutUint32(pg[8:], 0xffffffff)
+		return "count-max"
+	case 1:
+		binary.LittleEndian.PutUint32(pg[8:], binary.LittleEndian.Uint32(pg[8:])+uint32(1+r.Intn(200)))
+		return "count-bigger"
+	case 2:
+		// as many 8-byte entries as fit exactly, the last one marked as carrying an extra 4-byte count
+		n := (len(pg) - 12) / 8
+		binary.LittleEndian.PutUint32(pg[8:], uint32(n))
+		for i := 12; i < len(pg); i++ {
+			pg[i] = 0xff
+		}
+		return "overflow-entry-at-page-end"
+	case 3:
+		for i := 8; i < len(pg); i++ {
+			pg[i] = byte(r.Intn(256))
+		}
+		return "garbage-keep-next"
+	default:
+		for i := 0; i < 8; i++ {
+			pg[i] = 0
+		}
+		binary.LittleEndian.PutUint32(pg[8:], uint32((len(pg)-12)/14+1+r.Intn(3)))
+		return "count-just-over-capacity"
 	}
 }
 
